@@ -1,3 +1,4 @@
 import SupervisorModel.Basic.DriverKit
 import SupervisorModel.Model.Listener
-def main : IO Unit := Sv.driverMain [("listener", Sv.Listener.runCase)]
+import SupervisorModel.Model.Pool
+def main : IO Unit := Sv.driverMain [("listener", Sv.Listener.runCase), ("pool", Sv.Pool.runCase)]
